@@ -1,7 +1,9 @@
 SOURCE_COMMITS = []   # no hook commits; fix: commits in /repo are listed in known_findings.json
 NOTES = ("Every check: (1) regenerates lean/AriVerif/Gen from /repo, (2) lake-builds the property's theorems and audits "
          "axioms, (3) runs the model's executable definitions and the real code on the same inputs / schedules, (4) on a "
-         "broken obligation or correspondence searches the real code for a failing input. Exit 2 = infrastructure.")
+         "broken obligation or correspondence searches the real code for a failing input. Exit 2 = infrastructure. "
+         "Five genuine defects were found by these checks and repaired by 'fix:' commits in /repo (known_findings.json, all "
+         "'fixed'; the fifth, C10: a request named 'mpi' re-initialised the Metadata adapter, commit b6252c9).")
 _PENDING = "machinery for this property is still being built in this session (Lean model + correspondence); no claim yet"
 NOT_YET = {("C%02d" % i): _PENDING for i in range(1, 21)}
 
